@@ -15,6 +15,7 @@ import (
 	"fmt"
 	"os"
 	"reflect"
+	"strconv"
 	"strings"
 	"time"
 
@@ -48,6 +49,11 @@ type c10Op struct {
 	Fields []c10Dep `json:"fields,omitempty"`
 	Static int      `json:"static,omitempty"`
 	Pad    int      `json:"pad,omitempty"` // untagged fields mixed in (reflect.StructOf structs)
+	// extra injectors (c10_inj.go): kind "addinj" registers injector unit Unit whose data holds the
+	// keys of Mask; an inject op may carry fields tagged for those injectors
+	Unit  int         `json:"unit,omitempty"`
+	Mask  int         `json:"mask,omitempty"`
+	Extra []c10XField `json:"extra,omitempty"`
 }
 
 func (op c10Op) isDef() bool {
@@ -63,14 +69,18 @@ type c10Inst struct {
 }
 
 type c10Obs struct {
-	Res    string      `json:"res"` // ok | err | panic | hang
-	Inst   *c10Inst    `json:"inst,omitempty"`
-	Filled []*c10Inst  `json:"filled,omitempty"`
+	Res    string       `json:"res"` // ok | err | panic | hang
+	Inst   *c10Inst     `json:"inst,omitempty"`
+	Filled []*c10Inst   `json:"filled,omitempty"`
+	XFill  []*c10Inst   `json:"xfilled,omitempty"` // what the fields of the extra injectors hold
 	Runs   [c10Pool]int `json:"runs"`
-	Keys   []string    `json:"keys"`
+	Keys   []string     `json:"keys"`
 }
 
-func c10Name(i int) string { return fmt.Sprintf("n%d", i) }
+// The model's names are numbers; what string stands for name i is the harness's choice.  Besides
+// the plain pool n0..n7 the programs are run over pools of look-alike names (c10Spells): any
+// normalisation, prefix test or tag-syntax slip in the container folds two of them together.
+func c10Name(i int) string { return c10Spells[c10Cur].Names[i] }
 
 // ---- predefined struct types (compile-time tags)
 
@@ -145,8 +155,30 @@ var c10IfaceType = reflect.TypeOf((*interface{})(nil)).Elem()
 
 // dynamic struct: tagged interface{} fields F<i>, with `pad` untagged fields U<i> mixed in
 func c10MkStruct(fields []c10Dep, pad int) (ptr interface{}, read func() []*c10Inst) {
+	ptr, read, _ = c10MkStructX(fields, pad, nil)
+	return
+}
+
+// the same with fields for the extra injectors: before the dependency fields when their number is
+// odd, after them otherwise
+func c10MkStructX(fields []c10Dep, pad int, extra []c10XField) (ptr interface{}, read func() []*c10Inst, readX func() []*c10Inst) {
 	var sf []reflect.StructField
 	idx := []int{}
+	xidx := []int{}
+	addX := func() {
+		for i, f := range extra {
+			key := c10XKeys[f.Key]
+			if f.Opt {
+				key = "?" + key
+			}
+			xidx = append(xidx, len(sf))
+			sf = append(sf, reflect.StructField{Name: fmt.Sprintf("X%d", i), Type: c10IfaceType,
+				Tag: reflect.StructTag(fmt.Sprintf(`json:"-" %s:%s`, c10XTags[f.Tag], strconv.Quote(key)))})
+		}
+	}
+	if len(extra)%2 == 1 {
+		addX()
+	}
 	for i, f := range fields {
 		if pad > 0 && i%2 == 0 {
 			sf = append(sf, reflect.StructField{Name: fmt.Sprintf("U%d", i), Type: c10IfaceType})
@@ -157,20 +189,30 @@ func c10MkStruct(fields []c10Dep, pad int) (ptr interface{}, read func() []*c10I
 			tag = "?" + tag
 		}
 		idx = append(idx, len(sf))
-		sf = append(sf, reflect.StructField{Name: fmt.Sprintf("F%d", i), Type: c10IfaceType,
-			Tag: reflect.StructTag(fmt.Sprintf(`%s:"%s"`, c10Tag, tag))})
+		st := fmt.Sprintf(`%s:%s`, c10Tag, strconv.Quote(tag))
+		if i%2 == 1 {
+			// other keys around the provider's: look-alike key names, a value that is another name
+			st = fmt.Sprintf(`%sx:%s %s x%s:"?"`, c10Tag, strconv.Quote(c10Name((f.Name+1)%c10Pool)), st, c10Tag)
+		}
+		sf = append(sf, reflect.StructField{Name: fmt.Sprintf("F%d", i), Type: c10IfaceType, Tag: reflect.StructTag(st)})
+	}
+	if len(extra)%2 == 0 {
+		addX()
 	}
 	for ; pad > 0; pad-- {
 		sf = append(sf, reflect.StructField{Name: fmt.Sprintf("V%d", pad), Type: c10IfaceType})
 	}
 	v := reflect.New(reflect.StructOf(sf))
-	return v.Interface(), func() []*c10Inst {
-		out := make([]*c10Inst, len(idx))
-		for i, j := range idx {
-			out[i] = c10AsInst(v.Elem().Field(j).Interface())
+	rd := func(idx []int) func() []*c10Inst {
+		return func() []*c10Inst {
+			out := make([]*c10Inst, len(idx))
+			for i, j := range idx {
+				out[i] = c10AsInst(v.Elem().Field(j).Interface())
+			}
+			return out
 		}
-		return out
 	}
+	return v.Interface(), rd(idx), rd(xidx)
 }
 
 // ---- executing a program on the implementation
@@ -179,7 +221,17 @@ type c10Run struct {
 	dp    app.DependencyProvider
 	runs  [c10Pool]int
 	depth int
-	deep  bool // recursion cut by the harness (would have been unbounded)
+	deep  bool         // recursion cut by the harness (would have been unbounded)
+	xval  [][]*c10Inst // values of the extra injectors, by tag and key
+	// twin run (c10_inj.go): a second, independent provider with the same definitions; every
+	// factory of this one first asks the twin for its own name and records what it got
+	cross    *c10Run
+	crossLog []c10Cross
+}
+
+type c10Cross struct {
+	Name int
+	Ok   bool
 }
 
 func (x *c10Run) factory(name int, kind string, id int, p *c10Prog) app.Factory {
@@ -193,6 +245,10 @@ func (x *c10Run) factory(name int, kind string, id int, p *c10Prog) app.Factory 
 			// cut it, and make every further factory call of this request return at once
 			x.deep = true
 			return nil, errors.New("harness: recursion cut")
+		}
+		if x.cross != nil {
+			v, err := x.cross.dp.Get(c10Name(name))
+			x.crossLog = append(x.crossLog, c10Cross{name, err == nil && c10AsInst(v) != nil})
 		}
 		var wired []*c10Inst
 		if p.ViaInject {
@@ -224,9 +280,10 @@ func (x *c10Run) factory(name int, kind string, id int, p *c10Prog) app.Factory 
 }
 
 type c10Raw struct {
-	res    string
-	ptr    interface{}
-	filled []*c10Inst
+	res     string
+	ptr     interface{}
+	filled  []*c10Inst
+	xfilled []*c10Inst
 }
 
 func (x *c10Run) step(op c10Op) (r c10Raw) {
@@ -257,33 +314,65 @@ func (x *c10Run) step(op c10Op) (r c10Raw) {
 		}
 		return c10Raw{res: "ok", ptr: v}
 	case "inject":
-		ptr, read := c10MkStruct(op.Fields, op.Pad)
+		ptr, read, readX := c10MkStructX(op.Fields, op.Pad, op.Extra)
 		err := x.dp.InjectTo(ptr)
-		return c10Raw{res: cls(err), filled: read()}
+		return c10Raw{res: cls(err), filled: read(), xfilled: readX()}
 	case "sinject":
 		st := c10Statics[op.Static]
+		if c10Cur != 0 {
+			// the predefined types carry compile-time tags n0..n7: under another spelling of the
+			// names the same field list goes through a generated struct
+			ptr, read := c10MkStruct(st.fields, 0)
+			err := x.dp.InjectTo(ptr)
+			return c10Raw{res: cls(err), filled: read()}
+		}
 		ptr := st.mk()
 		err := x.dp.InjectTo(ptr)
 		return c10Raw{res: cls(err), filled: st.read(ptr)}
+	case "addinj":
+		return c10Raw{res: cls(x.dp.AddInjectors(c10XUnit(x, op.Unit, op.Mask)))}
 	}
 	panic("bad op " + op.Kind)
 }
 
 type c10Result struct {
-	obs  []c10Obs
-	raw  []c10Raw
-	hang bool
+	obs   []c10Obs
+	raw   []c10Raw
+	hang  bool
+	cross []c10Cross
+	xval  [][]*c10Inst
 }
 
-func c10Exec(ops []c10Op) c10Result {
+func c10Exec(ops []c10Op) c10Result { return c10ExecOn(ops, nil) }
+
+// setup (optional) builds the provider(s) of the run and says how many leading ops are NOT executed
+// because the provider was built with them (static provider): their observation is "accepted".
+func c10ExecOn(ops []c10Op, setup func(x *c10Run) int) c10Result {
 	done := make(chan c10Result, 1)
 	go func() {
-		x := &c10Run{dp: dependency.NewProvider(c10Tag)}
+		x := &c10Run{xval: c10XValues()}
+		skip := 0
+		if setup != nil {
+			skip = setup(x)
+		} else {
+			x.dp = dependency.NewProvider(c10Tag)
+		}
 		var res c10Result
-		for _, op := range ops {
+		for i, op := range ops {
 			x.depth, x.deep = 0, false
-			raw := x.step(op)
-			ob := c10Obs{Res: raw.res, Runs: x.runs, Filled: raw.filled}
+			if x.cross != nil {
+				x.cross.depth, x.cross.deep = 0, false
+			}
+			var raw c10Raw
+			if i < skip {
+				raw = c10Raw{res: "ok"}
+			} else {
+				raw = x.step(op)
+			}
+			if x.cross != nil && op.isDef() && raw.res == "ok" {
+				x.cross.step(op)
+			}
+			ob := c10Obs{Res: raw.res, Runs: x.runs, Filled: raw.filled, XFill: raw.xfilled}
 			if x.deep {
 				ob.Res = "hang"
 			}
@@ -305,6 +394,8 @@ func c10Exec(ops []c10Op) c10Result {
 			res.obs = append(res.obs, ob)
 			res.raw = append(res.raw, raw)
 		}
+		res.cross = x.crossLog
+		res.xval = x.xval
 		done <- res
 	}()
 	select {
@@ -359,7 +450,15 @@ func c10Tok(i *c10Inst) string {
 	return fmt.Sprintf("Some (mkTok %d %s %d %d)", i.Name, i.Kind, i.ID, i.Num)
 }
 
-func c10KeyNum(k string) string { return strings.TrimPrefix(k, "n") }
+// a key of Keys() as the model's name number; 99 for a string that is no name of the pool
+func c10KeyNum(k string) string {
+	for i, n := range c10Spells[c10Cur].Names {
+		if n == k {
+			return fmt.Sprint(i)
+		}
+	}
+	return "99"
+}
 
 func (ob c10Obs) coq(op c10Op) string {
 	var out string
@@ -399,11 +498,15 @@ func (ob c10Obs) coq(op c10Op) string {
 }
 
 func c10CaseCoq(ops []c10Op, obs []c10Obs) string {
-	o := make([]string, len(ops))
-	b := make([]string, len(ops))
+	// AddInjectors is not a call of the model: the case is the program without these calls (they
+	// must not change anything the model speaks about)
+	var o, b []string
 	for i := range ops {
-		o[i] = op2(ops[i].coq())
-		b[i] = obs[i].coq(ops[i])
+		if ops[i].Kind == "addinj" {
+			continue
+		}
+		o = append(o, op2(ops[i].coq()))
+		b = append(b, obs[i].coq(ops[i]))
 	}
 	return fmt.Sprintf("Case [0;1;2;3;4;5;6;7] %s %s", coqList(o), coqList(b))
 }
@@ -525,12 +628,33 @@ func (sp *c10Spec) onRequiredCycle(n int) bool {
 }
 
 func c10Desc(ops []c10Op, obs []c10Obs) map[string]interface{} {
-	return map[string]interface{}{"ops": ops, "obs": obs}
+	d := map[string]interface{}{"ops": ops, "obs": obs, "spell": c10Cur}
+	if c10Cur != 0 {
+		// the names of this pool may be long or no UTF-8: the description carries the pool's title
+		// and Keys() as name numbers
+		d["names"] = c10Spells[c10Cur].Title
+		cp := make([]c10Obs, len(obs))
+		for i, ob := range obs {
+			cp[i] = ob
+			cp[i].Keys = make([]string, len(ob.Keys))
+			for j, k := range ob.Keys {
+				cp[i].Keys[j] = "#" + c10KeyNum(k)
+			}
+		}
+		d["obs"] = cp
+	}
+	return d
 }
 
 // c10Oracles evaluates the property on what the implementation answered.
-func c10Oracles(o *Out, ops []c10Op, res c10Result) {
+// provider: "" for NewProvider, otherwise how the provider of this run was built (for the replay).
+// Returns whether some InjectTo had to fail because of an extra injector alone (such a program is
+// not a case of the model).
+func c10Oracles(o *Out, ops []c10Op, res c10Result, provider string) (xfailSeen bool) {
 	desc := c10Desc(ops, res.obs)
+	if provider != "" {
+		desc["provider"] = provider
+	}
 	fail := func(oracle, what string) { o.Fail(oracle, what, oracle, desc) }
 	if res.hang {
 		fail("no_hang", "program did not finish within the timeout")
@@ -539,6 +663,10 @@ func c10Oracles(o *Out, ops []c10Op, res c10Result) {
 	obs := res.obs
 	sp := c10SpecOf(ops, obs)
 	frozen := false
+	var xreg [][]int // per injector tag: the key masks of the registered injectors
+	for range c10XTags {
+		xreg = append(xreg, nil)
+	}
 	var first [c10Pool]interface{} // the instance (pointer) of a name once it was handed out
 	var prevRuns [c10Pool]int
 	var prevKeys []string
@@ -571,7 +699,24 @@ func c10Oracles(o *Out, ops []c10Op, res c10Result) {
 		if ob.Res == "hang" {
 			fail("no_unbounded_recursion", fmt.Sprintf("op %d (%s n%d): factories nested deeper than 64 over a pool of 8 names", i, op.Kind, op.Name))
 		}
-		if op.isDef() {
+		if op.Kind == "addinj" {
+			// an injector is a definition too: refused after the first resolution, accepted before;
+			// registering one resolves nothing
+			if frozen && ob.Res != "err" {
+				fail("frozen", fmt.Sprintf("op %d: AddInjectors accepted after the first resolution", i))
+			}
+			if !frozen && ob.Res == "err" && provider == "" {
+				fail("injectors", fmt.Sprintf("op %d: AddInjectors refused before any resolution", i))
+			}
+			if ob.Runs != prevRuns {
+				fail("lazy", fmt.Sprintf("op %d: AddInjectors ran a factory", i))
+			}
+			if ob.Res == "ok" {
+				for _, tm := range c10XUnitTags(op.Unit, op.Mask) {
+					xreg[tm[0]] = append(xreg[tm[0]], tm[1])
+				}
+			}
+		} else if op.isDef() {
 			if frozen && ob.Res != "err" {
 				fail("frozen", fmt.Sprintf("op %d: definition call %s n%d accepted after the first resolution", i, op.Kind, op.Name))
 			}
@@ -651,8 +796,39 @@ func c10Oracles(o *Out, ops []c10Op, res c10Result) {
 						stopped = true
 					}
 				}
-				if stopped != (ob.Res == "err") {
-					fail("inject", fmt.Sprintf("op %d: InjectTo = %s but a required field failed = %v", i, ob.Res, stopped))
+				// the extra injectors: a field whose key a registered injector of its tag lacks makes
+				// the call fail when it is required and changes nothing when it is optional; all
+				// other fields hold the injector's value after a successful call
+				xfail := false
+				for _, f := range op.Extra {
+					for _, m := range xreg[f.Tag] {
+						if m>>uint(f.Key)&1 == 0 && !f.Opt {
+							xfail = true
+						}
+					}
+				}
+				if !stopped && xfail {
+					xfailSeen = true
+				}
+				if (stopped || xfail) != (ob.Res == "err") {
+					fail("inject", fmt.Sprintf("op %d: InjectTo = %s but a required dependency failed = %v, a required key of an extra injector is missing = %v", i, ob.Res, stopped, xfail))
+				}
+				if ob.Res == "ok" && !stopped && !xfail {
+					for j, f := range op.Extra {
+						var got *c10Inst
+						if j < len(ob.XFill) {
+							got = ob.XFill[j]
+						}
+						var want *c10Inst
+						for _, m := range xreg[f.Tag] {
+							if m>>uint(f.Key)&1 == 1 {
+								want = res.xval[f.Tag][f.Key]
+							}
+						}
+						if got != want {
+							fail("injectors", fmt.Sprintf("op %d: field %d for the extra injector %s key %q (opt=%v) holds %v after a successful InjectTo, the registered injectors say %v", i, j, c10XTags[f.Tag], c10XKeys[f.Key], f.Opt, got, want))
+						}
+					}
 				}
 			}
 			if len(roots) > 0 {
@@ -662,6 +838,7 @@ func c10Oracles(o *Out, ops []c10Op, res c10Result) {
 		prevRuns = ob.Runs
 		prevKeys = ob.Keys
 	}
+	return
 }
 
 // history independence on the implementation alone: the same definitions, each requested name as
@@ -674,7 +851,7 @@ func c10History(o *Out, ops []c10Op, res c10Result) {
 	var defs, reqs []c10Op
 	frozen := false
 	for _, op := range ops {
-		if op.isDef() {
+		if op.isDef() || op.Kind == "addinj" {
 			if !frozen {
 				defs = append(defs, op)
 			}
@@ -941,12 +1118,15 @@ func c10GenProgram(rng *RNG) (ops []c10Op, shape string) {
 
 func c10Key(ops []c10Op) string {
 	b, _ := json.Marshal(ops)
-	return string(b)
+	return fmt.Sprint(c10Cur) + string(b)
 }
 
-func c10RunProgram(o *Out, ops []c10Op, shape string, emit bool, hist bool) {
-	res := c10Exec(ops)
-	c10Oracles(o, ops, res)
+func c10RunProgram(o *Out, ops []c10Op, shape string, emit bool, hist bool) (res c10Result) {
+	res = c10Exec(ops)
+	if c10Oracles(o, ops, res, "") {
+		emit = false // an InjectTo failed because of an extra injector: not a program of the model
+		o.Stat("injector_required_missing")
+	}
 	if hist {
 		c10History(o, ops, res)
 	}
@@ -954,12 +1134,17 @@ func c10RunProgram(o *Out, ops []c10Op, shape string, emit bool, hist bool) {
 		o.CountEval(c10Key(ops), true)
 		return
 	}
+	if c10Cur != 0 {
+		o.Stat("spelling_" + c10Spells[c10Cur].Title)
+	}
 	nOk, nErr, nReq := 0, 0, 0
 	for i, op := range ops {
 		ob := res.obs[i]
 		o.Stat("op_" + op.Kind)
 		if op.isDef() {
 			o.Stat("def_" + ob.Res)
+		} else if op.Kind == "addinj" {
+			o.Stat("addinj_" + ob.Res)
 		} else {
 			nReq++
 			o.Stat("req_" + ob.Res)
@@ -988,6 +1173,7 @@ func c10RunProgram(o *Out, ops []c10Op, shape string, emit bool, hist bool) {
 	} else {
 		o.CountEval(c10Key(ops), nontrivial)
 	}
+	return
 }
 
 func minInt(a, b int) int {
@@ -1031,6 +1217,9 @@ func c10Exhaustive(o *Out, maxDefs int, emitEvery int) {
 			ops = append(ops, rq...)
 			ops = append(ops, c10Op{Kind: "set", Name: 0, ID: 99})
 			count++
+			if c10Spells[c10Cur].GetOnly {
+				ops = c10GetOnly(ops)
+			}
 			c10RunProgram(o, ops, "exhaustive", emitEvery > 0 && (count+ri)%emitEvery == 0, len(prefix) <= 2)
 		}
 		if len(prefix) == maxDefs {
@@ -1041,8 +1230,10 @@ func c10Exhaustive(o *Out, maxDefs int, emitEvery int) {
 		}
 	}
 	rec(nil)
-	o.Extra["exhaustive_programs"] = count
-	o.Extra["exhaustive_max_len"] = maxDefs
+	if c10Cur == 0 {
+		o.Extra["exhaustive_programs"] = count
+		o.Extra["exhaustive_max_len"] = maxDefs
+	}
 }
 
 func runC10(o *Out, rng *RNG, tier string, replay string) {
@@ -1053,17 +1244,28 @@ func runC10(o *Out, rng *RNG, tier string, replay string) {
 	o.Rule = "programs over the pool n0..n7: 0-12 definition calls of the four kinds (duplicates, all orders; shapes acyclic / free / explicit k-ring with an optional edge, shuffled), " +
 		"factories = first-order programs (0-5 deps, optional/required, fails, nil; deps resolved by Get or by InjectTo on reflect.StructOf structs), then 1-10 requests " +
 		"(Get, InjectTo on generated and on 8 predefined struct types) with late definition calls mixed in; plus every sequence of <= N definition calls from an 18-entry menu over 2 names. " +
-		"Non-trivial: at least one request and at least one factory invocation; distinct by the whole program."
+		"45 % of the programs are run over one of 6 pools of look-alike names instead of n0..n7 (prefixes of one another; case/blank/homoglyph; '?' inside the name; struct-tag syntax; no UTF-8/NUL/long/two normal forms; empty name and leading '?' with Get requests only), " +
+		"30 % carry AddInjectors calls (MapInjector, datascope.Injector, MultiInjector of both; before and after the first request) and InjectTo structs with fields for them; every third program is also run on NewStaticProvider built from its accepted explicit definitions, every third next to a twin provider asked from inside the factories; " +
+		"a sweep of every kind of late definition (incl. AddInjectors) after every kind of first resolution, and the fixed scenarios, under all 7 pools; the 2-name exhaustive scope again over 3 look-alike pools. " +
+		"Non-trivial: at least one request and at least one factory invocation; distinct by the whole program and pool."
 	if replay != "" {
 		b, err := os.ReadFile(replay)
 		must(err)
 		var rp struct {
 			Case struct {
-				Ops []c10Op `json:"ops"`
+				Ops   []c10Op `json:"ops"`
+				Spell int     `json:"spell"`
 			} `json:"case"`
 		}
 		must(json.Unmarshal(b, &rp))
-		c10RunProgram(o, rp.Case.Ops, "replay", true, true)
+		if len(rp.Case.Ops) == 0 {
+			c10GoatAppProbe(o) // a failure of the application-level probe: run the probe again
+			return
+		}
+		c10Cur = rp.Case.Spell
+		res := c10RunProgram(o, rp.Case.Ops, "replay", true, true)
+		c10StaticRun(o, rp.Case.Ops, res)
+		c10TwinRun(o, rp.Case.Ops, res)
 		return
 	}
 	n, exh, every := 1500, 2, 7
@@ -1071,14 +1273,51 @@ func runC10(o *Out, rng *RNG, tier string, replay string) {
 		n, exh, every = 30000, 3, 40
 	}
 	// fixed scenarios from the notes / the design
-	for _, sc := range c10Scenarios() {
-		c10RunProgram(o, sc, "scenario", true, true)
+	// ... and every kind of late definition after every kind of first resolution; both under every
+	// spelling of the names, on the static provider and next to a twin provider
+	fixed := append(c10Scenarios(), c10LateSweep()...)
+	for sp := range c10Spells {
+		c10Cur = sp
+		for _, sc := range fixed {
+			if c10Spells[sp].GetOnly {
+				sc = c10GetOnly(sc)
+			}
+			res := c10RunProgram(o, sc, "scenario", sp == 0 || sp == 1, true)
+			if sp <= 1 {
+				c10StaticRun(o, sc, res)
+				c10TwinRun(o, sc, res)
+			}
+		}
 	}
+	c10Cur = 0
 	for i := 0; i < n; i++ {
 		ops, shape := c10GenProgram(rng)
-		c10RunProgram(o, ops, shape, true, true)
+		if rng.Chance(45) {
+			c10Cur = 1 + rng.Intn(len(c10Spells)-1)
+		}
+		if c10Spells[c10Cur].GetOnly {
+			ops = c10GetOnly(ops)
+		} else if rng.Chance(30) {
+			ops = c10AddInjectorOps(rng, ops)
+			shape += "+injectors"
+		}
+		res := c10RunProgram(o, ops, shape, true, true)
+		if i%3 == 0 {
+			c10StaticRun(o, ops, res)
+		}
+		if i%3 == 1 {
+			c10TwinRun(o, ops, res)
+		}
+		c10Cur = 0
 	}
 	c10Exhaustive(o, exh, every)
+	// the small scope once more over names that are prefixes of one another and over the empty /
+	// marker-led names (L2 only)
+	for _, sp := range []int{1, 3, 6} {
+		c10Cur = sp
+		c10Exhaustive(o, 2, 0)
+	}
+	c10Cur = 0
 	c10GoatAppProbe(o)
 	// harness self-check: generator distribution
 	req := o.Stats["req_ok"] + o.Stats["req_err"]
